@@ -255,7 +255,8 @@ def gen(rng, shard, nshards, n_ed, n_p256, table, rms):
         if fm is not None:
             Q, inp, hv, (i, j) = fm
             cases.append(case1("s p256 vtrunc %s %s %d %s" % (W.P256.encode_compressed(Q).hex(), inp.hex(), rm, hv.hex()), expect_p256(Q, inp, rm, hv, None),
-                               ["false-match-p256", "false-match-p256:" + ("j=0" if j == 0 else "j>0")], "constructed 48-bit table hit"))
+                               ["false-match-p256", "structured-s:kept-bits-all-zero", "structured-s:hidden-part-zero", "structured-s:hidden-part-all-ones", "structured-s:baby-index-zero",
+                    "structured-s:giant-index-max", "false-match-p256:" + ("j=0" if j == 0 else "j>0")], "constructed 48-bit table hit"))
     # ---- Ed25519 ----
     for it in range(n_ed):
         seed = rb(rng, 32)
@@ -408,6 +409,47 @@ def gen(rng, shard, nshards, n_ed, n_p256, table, rms):
             lines.append("s p256 vtrunc %s %s %d %s" % (pk.hex(), inp.hex(), rm, hv2.hex()))
             exp.append(expect_p256(Q, inp, rm, hv2, must))
         cases.append(Case(lines, exp, sorted(cl), "p256 truncated"))
+    # completeness on structured s (valid signatures built with the forged-hash construction h = s*k - r*d): kept bits all zero
+    # (s0*R is the point at infinity), hidden part zero / all ones, baby-step or giant-step index 0 or maximal
+    for it in range(max(2, n_p256 // 6)):
+        d = rng.randrange(1, N)
+        Q = Cw.mulgen(d)
+        pk = Cw.encode_compressed(Q)
+        rm = rng.choice(rms)
+        nb = 256 - rm
+        m_ = rm - 1
+        kk = (m_ + 1) >> 1
+        J = 1 << kk; I = 1 << (m_ - kk)
+        how = rng.randrange(7)
+        if how == 0:
+            s_true = rng.randrange(1, 1 << m_) << nb; tag = "kept-bits-all-zero"
+        elif how == 1:
+            s_true = rng.randrange(1, 1 << nb); tag = "hidden-part-zero"
+        elif how == 2:
+            s_true = (((1 << m_) - 1) << nb) | rng.getrandbits(nb); tag = "hidden-part-all-ones"
+        elif how == 3:
+            s_true = ((rng.randrange(I) << kk) << nb) | rng.getrandbits(nb); tag = "baby-index-zero"
+        elif how == 4:
+            s_true = (((rng.randrange(I) << kk) | (J - 1)) << nb) | rng.getrandbits(nb); tag = "baby-index-max"
+        elif how == 5:
+            s_true = (((I - 1) << kk | rng.randrange(J)) << nb) | rng.getrandbits(nb); tag = "giant-index-max"
+        else:
+            s_true = (rng.randrange(1, 1 << m_) << nb) | rng.choice([1, (1 << nb) - 1]); tag = "kept-bits-one-or-all-ones"
+        if not (0 < s_true < N and s_true < (1 << 255)):
+            continue
+        kq = rng.randrange(1, N)
+        r2 = Cw.mulgen(kq)[0] % N
+        if r2 == 0:
+            continue
+        hv2 = ((s_true * kq - r2 * d) % N).to_bytes(32, "big")
+        standard = r2.to_bytes(32, "big") + s_true.to_bytes(32, "big")
+        if not W.ecdsa_verify(Cw, Q, standard, hv2):
+            cases.append(case1("ping", "ORACLE-INCONSISTENT: forged-hash signature does not verify", ["oracle"]))
+            continue
+        prepared = r2.to_bytes(32, "big") + s_true.to_bytes(32, "little")
+        inp = overwrite_last_bits(prepared, rm, rng.choice(["zero", "ones", "random"]), rng)
+        cases.append(case1("s p256 vtrunc %s %s %d %s" % (pk.hex(), inp.hex(), rm, hv2.hex()), expect_p256(Q, inp, rm, hv2, standard),
+                           ["p256", "complete", "structured-s", "structured-s:" + tag], "p256 completeness on structured s"))
     # prepare_truncate on short / boundary forms
     for it in range(max(1, n_p256 // 4)):
         d = rng.randrange(1, N)
